@@ -464,6 +464,15 @@ def r15_5(run):
         names = [t for n in aw for t in assigned_targets(n.ast)]
         yielded = any(isinstance(a, ast.Yield) and a.value is not None and (dotted(a.value) in names or src(a.value) in names) for a in walk_unit(u))
         run.ob('R15.5', u, u.node, '%s waits for the descriptor wait it armed' % u.short, yielded, slot='awaited:%s' % u.short, message='%s never yields the descriptor wait' % u.short)
+        # ... on every path: no normal exit after the command is reached around the wait (a shortcut "if it has fired already" also
+        # skips looking at a wait that has already *failed*)
+        yn = g.nodes_where(lambda n: any(isinstance(a, ast.Yield) and a.value is not None and (dotted(a.value) in names or src(a.value) in names) for a in node_asts(n)))
+        for c in cm:
+            r = g.reachable([s_ for lab, s_ in c.succ if lab != 'exc'], avoid=lambda n: n in yn, follow_exc=False)
+            run.ob('R15.5', u, c.ast, '%s: every way from the creating command to a normal return passes the descriptor wait' % u.short,
+                   not any(e in r for e in g.normal_exits()), slot='awaited-always:%s' % u.short,
+                   message='%s can return normally after %s without yielding the descriptor wait (the wait is conditional): a wait that has already failed - every '
+                           'upload failed before the reply arrived - is never looked at and creation reports success' % (u.short, cmd))
         for n in aw:
             for a in node_asts(n):
                 if is_call_to(a, '_await_descriptor_upload'):
@@ -493,6 +502,7 @@ RULES = [
 from ..selftest import M  # noqa: E402
 F = 'txtorcon/onion.py'
 MUTANTS = [
+    M('wait-skipped-when-fired', F, "    log.msg(\"{}: waiting for descriptor uploads.\".format(onion.hostname))\n    yield uploaded_d\n", "    if not uploaded_d.called:\n        yield uploaded_d\n", ['R15.5']),
     M('mode-not-handed-on', F, "        yield _add_ephemeral_service(config, onion, progress, version, None, await_all_uploads)", "        yield _add_ephemeral_service(config, onion, progress, version)", ['R15.8']),
     M('failed-last-never-completes', F, "                    elif await_all and confirmed_uploads:\n                        # this failure may have been the last\n                        # outstanding attempt\n                        if (len(failed_uploads) + len(confirmed_uploads)) == len(attempted_uploads):\n                            uploaded.callback(onion)", "                    elif await_all and confirmed_uploads:\n                        if (len(failed_uploads) + len(confirmed_uploads)) != len(attempted_uploads):\n                            uploaded.callback(onion)", ['R15.7']),
     M('failed-last-no-callback', F, "                        if (len(failed_uploads) + len(confirmed_uploads)) == len(attempted_uploads):\n                            uploaded.callback(onion)\n\n    # the first", "                        if (len(failed_uploads) + len(confirmed_uploads)) == len(attempted_uploads):\n                            pass\n\n    # the first", ['R15.7']),
